@@ -597,6 +597,64 @@ Corollary kv2_tokens_roundtrip_gen : forall d, doc_ok T vtnames d = true ->
 Proof. intros d Hd. exact (tokenize_lexemes T o HT Ho (lex_doc d) (lex_doc_ok d Hd)). Qed.
 End Roundtrip.
 
+(** * Part 3: the element graph (fix-up pass) *)
+Lemma last_index_none u : forall ids base, existsb (str_eqb u) ids = false -> last_index u ids base = None.
+Proof.
+  induction ids as [|x r IH]; intros base H; [reflexivity|]. cbn [existsb] in H. apply orb_false_iff in H. destruct H as [H1 H2].
+  cbn [last_index]. now rewrite IH, H1.
+Qed.
+Lemma last_index_nth : forall ids i base, nodup_str ids = true -> (i < length ids)%nat ->
+  last_index (nth i ids []) ids base = Some (base + i)%nat.
+Proof.
+  induction ids as [|x r IH]; intros i base Hn Hi; [cbn in Hi; lia|].
+  cbn [nodup_str] in Hn. apply andb_prop in Hn. destruct Hn as [Hx Hr]. apply negb_true_iff in Hx.
+  destruct i as [|i]; cbn [nth last_index].
+  - rewrite (last_index_none x r (S base) Hx), str_eqb_refl. f_equal. lia.
+  - cbn [length] in Hi. rewrite (IH i (S base) Hr) by lia. f_equal. lia.
+Qed.
+
+Lemma all_ids_flatten ids g : all_ids (map (flat_elem ids) g) = Some (map ge_id g).
+Proof. induction g as [|e g IH]; [reflexivity|]. cbn [map all_ids flat_elem ke_id]. now rewrite IH. Qed.
+
+(** The fix-up pass inverts the writer's replacement of element references by UUID text: sharing, cycles (a
+    reference is an index, whatever it points to), NULL and stubs are kept. *)
+Theorem link_flatten g : graph_ok g = true -> link (flatten g) = Some g.
+Proof.
+  intros H. unfold graph_ok in H. apply andb_prop in H. destruct H as [Hnd Hall].
+  unfold link, flatten. rewrite all_ids_flatten. f_equal. set (ids := map ge_id g) in *.
+  rewrite map_map. rewrite <- (map_id g) at 2. apply map_ext_in. intros e He.
+  rewrite forallb_forall in Hall. specialize (Hall e He).
+  destruct e as [ty id nm attrs]. cbn [flat_elem ke_type ke_id ke_name ke_attrs ge_type ge_id ge_name ge_attrs] in *.
+  f_equal. rewrite map_map. rewrite <- (map_id attrs) at 2. apply map_ext_in. intros a Ha.
+  rewrite forallb_forall in Hall. specialize (Hall a Ha).
+  destruct a as [an at_ arr its]. unfold link_attr, flat_attr. cbn [ka_name ka_type ka_arr ka_items ga_name ga_type ga_arr ga_items] in *.
+  f_equal. rewrite map_map. rewrite <- (map_id its) at 2. apply map_ext_in. intros it Hit.
+  rewrite forallb_forall in Hall. specialize (Hall it Hit).
+  destruct it as [s|[i| |u]]; cbn [flat_item link_item gitem_ok] in *; try reflexivity.
+  - apply Nat.ltb_lt in Hall. now rewrite (last_index_nth ids i 0 Hnd Hall).
+  - apply negb_true_iff in Hall. now rewrite (last_index_none u ids 0 Hall).
+Qed.
+
+(** Text and graph together: the flat-layout text of a graph, tokenized, parsed and linked, is the graph. *)
+Theorem kv2_flat_graph_roundtrip_gen (T : tables) (o : opts) (fold : str -> str) (vtnames : list str) :
+  kv2_tables_ok T = true -> kv2_opts_ok o = true -> vtnames_ok T fold vtnames = true ->
+  forall g, graph_ok g = true -> doc_ok T vtnames (flatten g) = true ->
+  match parse_text T o fold vtnames (render_doc T (flatten g)) with Some d => link d | None => None end = Some g.
+Proof.
+  intros HT Ho Hvt g Hg Hd. rewrite (kv2_flat_roundtrip_gen T o fold vtnames HT Ho Hvt _ Hd). now apply link_flatten.
+Qed.
+
+Example kv2_graph_example :
+  graph_ok ex_gdoc && doc_ok pinned_tables pinned_vtnames (flatten ex_gdoc) = true.
+Proof. vm_compute. reflexivity. Qed.
+(** With a duplicated id a reference resolves to the later element: ids must be distinct. *)
+Example kv2_duplicate_id_refuted :
+  let g := [ {| ge_type := [65]; ge_id := [120]; ge_name := []; ge_attrs :=
+                 [ {| ga_name := [114]; ga_type := s_element; ga_arr := false; ga_items := [GRef (GElem 0)] |} ] |};
+             {| ge_type := [66]; ge_id := [120]; ge_name := []; ge_attrs := [] |} ] in
+  graph_ok g = false /\ link (flatten g) <> Some g.
+Proof. split; [reflexivity|vm_compute; discriminate]. Qed.
+
 (** The premises are satisfiable (hand copy of the pinned tables), and the example document parses back by computation. *)
 Example kv2_premises_example :
   kv2_tables_ok pinned_tables && kv2_opts_ok pinned_kv2_opts && vtnames_ok pinned_tables (fun s => s) pinned_vtnames &&
